@@ -193,7 +193,7 @@ def evaluate(case) -> Verdict:
 
 @st.composite
 def cases(draw):
-    r = draw(st.randoms(use_true_random=False))
+    r = core.rng(draw)
     g = gg.Gen(r, _profile(EXCLUDED))
     main = g.template()
     datas = [gd.DataGen(r).data() for _ in range(3)]
